@@ -170,6 +170,9 @@ def _halflife_to_int(halflife):
 
 def _times_to_int_array(times):
     times, _ = _convert_timestamp_to_tz_unaware(times)
+    if times.dtype.kind == "M" and times.dtype != np.dtype("M8[ns]"):
+        # the halflife is in nanoseconds: bring timestamps in us, ms, s, ... to the same unit
+        times = times.astype("M8[ns]")
     return times.view(np.int64)
 
 
